@@ -2,10 +2,10 @@
    Only statements, each closed by [exact <lemma>] and followed by Print Assumptions.
    Model: LsModel.v (state machine of LeastSquares<T>); Eigen's LDLT solve and JacobiSVD are the function arguments
    [inverse_of] / [svd_of]; their contracts ([inv_contract], [svd_contract], LsProofs.v) are explicit premises.
-   Notation: Jf s / Yf s / Af s / bf s are the J_, Y_, Ac_, Bc_ of state s viewed as functions; for a vector z
+   Notation: Jf s / Yf s / Wf s / Af s / bf s are the J_, Y_, W_, Ac_, Bc_ of state s viewed as functions; for a vector z
    [cost n k J Y z] = sum_{r<n} ((J z)_r - Y_r)^2 and [grad n k J Y z i] = (J^T (J z - Y))_i over the first n rows. *)
 From Coq Require Import Reals List Arith Lia Lra Bool.
-From Romea Require Import Num NumR LinAlgBModel LinAlgBProofs LsModel LsProofs LsHistoryProofs.
+From Romea Require Import Num NumR LinAlgBModel LinAlgBProofs LsModel LsProofs LsHistoryProofs LsWeighted LsEndToEnd.
 Import ListNotations.
 Local Open Scope R_scope.
 
@@ -40,6 +40,17 @@ Theorem C07_ls_svd_normal_equations_minimiser_unique :
   (forall y, cost n k (Jf s) (Yf s) y = cost n k (Jf s) (Yf s) z -> forall i, (i < k)%nat -> y i = z i).
 Proof. exact ls_svd_correct. Qed.
 Print Assumptions C07_ls_svd_normal_equations_minimiser_unique.
+
+(* the premise [svd_all_above] of the two SVD theorems is one inequality on the extreme singular values: epsilon * sigma_max < sigma_min,
+   i.e. cond(J^T J) = cond(J)^2 < 1/epsilon (the singular values are non-increasing by the contract) *)
+Theorem C07_ls_svd_all_above_from_condition_number :
+  forall svd_of (s : ls_state (T:=R)),
+  svd_contract (ls_k s) (ls_JtJ ROps s) (svd_of (ls_k s) (ls_JtJ ROps s)) ->
+  (let sg := snd (fst (svd_of (ls_k s) (ls_JtJ ROps s))) in
+   nepsilon ROps * vget ROps sg 0 < vget ROps sg (ls_k s - 1)) ->
+  svd_all_above svd_of s.
+Proof. exact svd_all_above_of_cond. Qed.
+Print Assumptions C07_ls_svd_all_above_from_condition_number.
 
 (* the Cholesky and SVD paths agree *)
 Theorem C07_ls_chol_eq_svd :
@@ -90,15 +101,139 @@ Proof.
 Qed.
 Print Assumptions C07_ls_estimate_reads_only_current_rows.
 
-(* weighted variant: weightedEstimate = Cholesky estimate of the row-scaled problem (w_r J_r, w_r Y_r), hence by the first
-   theorem the minimiser of sum (w_r r_r)^2.  What is proved here is the reduction; the row-scaling identity
-   J'_r = w_r J_r is checked by the correspondence run only. *)
-Theorem C07_ls_weighted_minimiser_partial :
+(* ---- weighted variant (LsWeighted.v).  C++: weightJAndY_() multiplies Y_(r) and row r of J_ by W_(r), r < dataSize_, IN PLACE,
+   then estimateUsingCholeskyDecomposition().  Notation: Wf s = W_ as a function;
+   [wcost n k J Y w x] = sum_{r<n} (w_r ((J x)_r - Y_r))^2,  [wgrad n k J Y w x a] = (J^T W^2 (J x - Y))_a = sum_r w_r^2 J_ra ((J x)_r - Y_r),
+   [wnM n J w i j] = (J^T W^2 J)_ij. ---- *)
+
+(* row-scaling identity of the model's weightJAndY_, for EVERY state: current rows r < dataSize of J_ (all columns) and of Y_
+   are multiplied by W_(r); the rows beyond dataSize, W_, the sizes and the preconditioner are untouched *)
+Theorem C07_ls_weight_row_scaling :
+  forall s : ls_state (T:=R),
+  (forall r a, (r < ls_n s)%nat -> Jf (ls_weight ROps s) r a = Jf s r a * Wf s r) /\
+  (forall r, (r < ls_n s)%nat -> Yf (ls_weight ROps s) r = Yf s r * Wf s r) /\
+  (forall r a, (ls_n s <= r)%nat -> Jf (ls_weight ROps s) r a = Jf s r a) /\
+  (forall r, (ls_n s <= r)%nat -> Yf (ls_weight ROps s) r = Yf s r) /\
+  (forall r, Wf (ls_weight ROps s) r = Wf s r) /\
+  ls_n (ls_weight ROps s) = ls_n s /\ ls_k (ls_weight ROps s) = ls_k s /\
+  ls_A (ls_weight ROps s) = ls_A s /\ ls_b (ls_weight ROps s) = ls_b s.
+Proof. exact ls_weight_row_scaling. Qed.
+Print Assumptions C07_ls_weight_row_scaling.
+
+(* weightedEstimate is the Cholesky estimate of that scaled state (the reduction that used to be the _partial theorem) *)
+Theorem C07_ls_weighted_is_cholesky_of_scaled_rows :
   forall (inverse_of : nat -> list (list R) -> list (list R)) (s : ls_state (T:=R)),
   ls_est_ok s = true ->
   ls_weighted_estimate ROps inverse_of s = ls_estimate_chol ROps inverse_of (ls_weight ROps s).
-Proof. intros inverse_of s H. unfold ls_weighted_estimate. now rewrite H. Qed.
-Print Assumptions C07_ls_weighted_minimiser_partial.
+Proof. exact weighted_is_chol_of_scaled. Qed.
+Print Assumptions C07_ls_weighted_is_cholesky_of_scaled_rows.
+
+(* the matrix handed to the LDLT oracle by weightedEstimate is J^T W^2 J of the rows as the caller wrote them *)
+Theorem C07_ls_weighted_normal_matrix :
+  forall (s : ls_state (T:=R)) i j, (i < ls_k s)%nat -> (j < ls_k s)%nat ->
+  mget ROps (ls_JtJ ROps (ls_weight ROps s)) i j = wnM (ls_n s) (Jf s) (Wf s) i j.
+Proof. exact weighted_JtJ_get. Qed.
+Print Assumptions C07_ls_weighted_normal_matrix.
+
+(* weighted variant, full statement: under the inverse contract for that matrix, weightedEstimate returns A z + b where z satisfies
+   the weighted normal equations J^T W^2 (J z - Y) = 0 and is the global, unique minimiser of sum_r (w_r r_r)^2 — all expressed on
+   the J, Y, W the caller wrote (state s BEFORE the call).  Last two conjuncts: the object is left with the scaled rows. *)
+Theorem C07_ls_weighted_minimiser :
+  forall (inverse_of : nat -> list (list R) -> list (list R)) (s st : ls_state (T:=R)) (x : list R),
+  let sw := ls_weight ROps s in
+  inv_contract (ls_k s) (ls_JtJ ROps sw) (inverse_of (ls_k s) (ls_JtJ ROps sw)) ->
+  ls_weighted_estimate ROps inverse_of s = Some (st, x) ->
+  let n := ls_n s in let k := ls_k s in
+  let z := ls_z sw (inverse_of k (ls_JtJ ROps sw)) in
+  (forall i, (i < k)%nat -> vget ROps x i = Rsum k (fun l => Af s i l * z l) + bf s i) /\
+  (forall a, (a < k)%nat -> wgrad n k (Jf s) (Yf s) (Wf s) z a = 0) /\
+  (forall y, wcost n k (Jf s) (Yf s) (Wf s) z <= wcost n k (Jf s) (Yf s) (Wf s) y) /\
+  (forall y, wcost n k (Jf s) (Yf s) (Wf s) y = wcost n k (Jf s) (Yf s) (Wf s) z -> forall i, (i < k)%nat -> y i = z i) /\
+  (forall r a, (r < n)%nat -> Jf st r a = Jf s r a * Wf s r) /\
+  (forall r, (r < n)%nat -> Yf st r = Yf s r * Wf s r).
+Proof. exact ls_weighted_correct. Qed.
+Print Assumptions C07_ls_weighted_minimiser.
+
+(* consequence of the in-place scaling (characterisation of what the code does, not a clause of the property): a second
+   weightedEstimate on the same object WITHOUT rewriting the rows minimises sum_r (w_r^2 r_r)^2 of the rows originally written *)
+Theorem C07_ls_weighted_twice_squares_the_weights :
+  forall (inverse_of : nat -> list (list R) -> list (list R)) (s st : ls_state (T:=R)) (x : list R) (st2 : ls_state (T:=R)) (x2 : list R),
+  ls_weighted_estimate ROps inverse_of s = Some (st, x) ->
+  inv_contract (ls_k s) (ls_JtJ ROps (ls_weight ROps st)) (inverse_of (ls_k s) (ls_JtJ ROps (ls_weight ROps st))) ->
+  ls_weighted_estimate ROps inverse_of st = Some (st2, x2) ->
+  let n := ls_n s in let k := ls_k s in
+  let w2 := fun r => Wf s r * Wf s r in
+  let z := ls_z (ls_weight ROps st) (inverse_of k (ls_JtJ ROps (ls_weight ROps st))) in
+  (forall i, (i < k)%nat -> vget ROps x2 i = Rsum k (fun l => Af s i l * z l) + bf s i) /\
+  (forall y, wcost n k (Jf s) (Yf s) w2 z <= wcost n k (Jf s) (Yf s) w2 y).
+Proof. exact ls_weighted_twice. Qed.
+Print Assumptions C07_ls_weighted_twice_squares_the_weights.
+
+(* the estimates do not depend on which right inverse the LDLT oracle returns (Cholesky and weighted paths) *)
+Theorem C07_ls_estimate_independent_of_inverse_oracle :
+  forall (inverse_of inverse_of' : nat -> list (list R) -> list (list R)) (s st1 : ls_state (T:=R)) (x1 : list R) (st2 : ls_state (T:=R)) (x2 : list R),
+  (inv_contract (ls_k s) (ls_JtJ ROps s) (inverse_of (ls_k s) (ls_JtJ ROps s)) ->
+   inv_contract (ls_k s) (ls_JtJ ROps s) (inverse_of' (ls_k s) (ls_JtJ ROps s)) ->
+   ls_estimate_chol ROps inverse_of s = Some (st1, x1) -> ls_estimate_chol ROps inverse_of' s = Some (st2, x2) ->
+   forall i, (i < ls_k s)%nat -> vget ROps x1 i = vget ROps x2 i) /\
+  (let sw := ls_weight ROps s in
+   inv_contract (ls_k s) (ls_JtJ ROps sw) (inverse_of (ls_k s) (ls_JtJ ROps sw)) ->
+   inv_contract (ls_k s) (ls_JtJ ROps sw) (inverse_of' (ls_k s) (ls_JtJ ROps sw)) ->
+   ls_weighted_estimate ROps inverse_of s = Some (st1, x1) -> ls_weighted_estimate ROps inverse_of' s = Some (st2, x2) ->
+   forall i, (i < ls_k s)%nat -> vget ROps x1 i = vget ROps x2 i).
+Proof.
+  exact (fun inv inv' s st1 x1 st2 x2 =>
+           conj (ls_chol_oracle_independent inv inv' s st1 x1 st2 x2) (ls_weighted_oracle_independent inv inv' s st1 x1 st2 x2)).
+Qed.
+Print Assumptions C07_ls_estimate_independent_of_inverse_oracle.
+
+(* non-zero weights keep the column rank: W J z = 0 on the current rows iff J z = 0 on the current rows *)
+Theorem C07_ls_weighting_preserves_rank :
+  forall (s : ls_state (T:=R)) (z : nat -> R),
+  (forall r, (r < ls_n s)%nat -> Wf s r <> 0) ->
+  ((forall r, (r < ls_n s)%nat -> Jx (ls_k s) (Jf (ls_weight ROps s)) z r = 0) <->
+   (forall r, (r < ls_n s)%nat -> Jx (ls_k s) (Jf s) z r = 0)).
+Proof.
+  exact (fun s z => kernel_scaled (ls_n s) (ls_k s) (Jf s) (Wf s) (Jf (ls_weight ROps s)) (fun r a H => weight_J_in s r a H) z).
+Qed.
+Print Assumptions C07_ls_weighting_preserves_rank.
+
+(* THE PROPERTY ON THE CALLER'S DATA, through the state machine: after ANY history on one solver object (estimate size k kept),
+   loading a problem — setDataSize n, rows 0..n-1 of J / Y / W from the lists rows / ys / ws, setPreconditionner(A, b) — and calling
+   any of the three estimate functions returns A z + b where z satisfies the (weighted) normal equations and is the unique global
+   minimiser of the cost of THAT problem, written on rows / ys / ws themselves (J = mget rows, Y = vget ys, W = vget ws), not on the
+   buffers of the object: leftover rows of larger problems, earlier in-place weightings and earlier estimates do not enter.
+   The oracles are called on J^T J resp. J^T W^2 J of the caller's rows (conjuncts 2 and 3), which makes the contracts premises about
+   the caller's matrix. *)
+Theorem C07_ls_problem_after_any_history_returns_its_minimiser :
+  forall inverse_of svd_of (fill : R) (svd_fixed : bool) k hist (s : ls_state (T:=R)) outs n rows ys ws A b,
+  forallb keeps_estimate_size hist = true ->
+  ls_run ROps inverse_of svd_of fill svd_fixed hist (ls_new1 ROps k) = Some (s, outs) ->
+  (1 <= n)%nat -> (forall i, (i < n)%nat -> length (nth i rows []) = k) ->
+  let J := mget ROps rows in let Y := vget ROps ys in let W := vget ROps ws in
+  exists t o, ls_run ROps inverse_of svd_of fill svd_fixed (load_ops ROps n rows ys ws ++ [OpSetPrecond A b]) s = Some (t, o) /\
+    (forall i j, (i < k)%nat -> (j < k)%nat -> mget ROps (ls_JtJ ROps t) i j = nM n J i j) /\
+    (forall i j, (i < k)%nat -> (j < k)%nat -> mget ROps (ls_JtJ ROps (ls_weight ROps t)) i j = wnM n J W i j) /\
+    (inv_contract k (ls_JtJ ROps t) (inverse_of k (ls_JtJ ROps t)) ->
+     exists st x z, ls_estimate_chol ROps inverse_of t = Some (st, x) /\
+       (forall i, (i < k)%nat -> vget ROps x i = Rsum k (fun l => mget ROps A i l * z l) + vget ROps b i) /\
+       (forall a, (a < k)%nat -> grad n k J Y z a = 0) /\
+       (forall y, cost n k J Y z <= cost n k J Y y) /\
+       (forall y, cost n k J Y y = cost n k J Y z -> forall i, (i < k)%nat -> y i = z i)) /\
+    (svd_contract k (ls_JtJ ROps t) (svd_of k (ls_JtJ ROps t)) -> svd_all_above svd_of t ->
+     exists st x z, ls_estimate_svd ROps svd_of t = Some (st, x) /\
+       (forall i, (i < k)%nat -> vget ROps x i = Rsum k (fun l => mget ROps A i l * z l) + vget ROps b i) /\
+       (forall a, (a < k)%nat -> grad n k J Y z a = 0) /\
+       (forall y, cost n k J Y z <= cost n k J Y y) /\
+       (forall y, cost n k J Y y = cost n k J Y z -> forall i, (i < k)%nat -> y i = z i)) /\
+    (inv_contract k (ls_JtJ ROps (ls_weight ROps t)) (inverse_of k (ls_JtJ ROps (ls_weight ROps t))) ->
+     exists st x z, ls_weighted_estimate ROps inverse_of t = Some (st, x) /\
+       (forall i, (i < k)%nat -> vget ROps x i = Rsum k (fun l => mget ROps A i l * z l) + vget ROps b i) /\
+       (forall a, (a < k)%nat -> wgrad n k J Y W z a = 0) /\
+       (forall y, wcost n k J Y W z <= wcost n k J Y W y) /\
+       (forall y, wcost n k J Y W y = wcost n k J Y W z -> forall i, (i < k)%nat -> y i = z i)).
+Proof. exact ls_problem_after_any_history. Qed.
+Print Assumptions C07_ls_problem_after_any_history_returns_its_minimiser.
 
 (* the ORIGINAL SVD path (absolute test sigma > epsilon) is refuted: J = [eps], Y = [eps] is full rank with condition number
    1 and exact solution x = 1, the SVD below meets the contract, yet the returned x = eps^4 violates the normal equations.
@@ -125,3 +260,27 @@ Qed.
 Example C07_history_exists :
   exists s outs, ls_run ROps (fun _ m => m) (fun _ m => (m, [], m)) 0 true [OpSetDataSize 3] (ls_new1 ROps 1) = Some (s, outs).
 Proof. eexists. eexists. reflexivity. Qed.
+(* the weighted theorem is not vacuous: 2 rows, 1 unknown, J = (1,1), Y = (1,2), W = (2,3), the obvious 1x1 inverse.  The contract holds
+   and the estimate is 22/13 = (4*1 + 9*2)/(4 + 9): weights enter SQUARED in the normal equations, i.e. the cost is sum (w_r r_r)^2
+   (sum w_r r_r^2 would give 8/5, the unweighted problem 3/2).  A second call without rewriting the rows gives 178/97 (weights^4).
+   The real class returns 0x1.b13b13b13b13cp+0 and 0x1.d5c5f02a3a0fdp+0 on this input (harness/C07.cpp, ops XW XW). *)
+Example C07_weighted_contract_satisfiable :
+  inv_contract (ls_k wwit_state) (ls_JtJ ROps (ls_weight ROps wwit_state))
+               (wwit_inv (ls_k wwit_state) (ls_JtJ ROps (ls_weight ROps wwit_state))) /\
+  (exists st x, ls_weighted_estimate ROps wwit_inv wwit_state = Some (st, x) /\ vget ROps x 0 = 22 / 13) /\
+  (exists st x st2 x2, ls_weighted_estimate ROps wwit_inv wwit_state = Some (st, x) /\
+                       ls_weighted_estimate ROps wwit_inv st = Some (st2, x2) /\ vget ROps x2 0 = 178 / 97).
+Proof. exact (conj wwit_contract (conj wwit_value wwit_twice_value)). Qed.
+(* the end-to-end theorem is not vacuous: history "grow to 3 rows", then the 1-row problem J = [1], Y = [2], W = [1] with the obvious
+   1x1 inverse oracle: the run exists and both inverse contracts hold on the state it reaches *)
+Example C07_end_to_end_premises_satisfiable :
+  let inv := fun (_ : nat) (m : list (list R)) => [[/ mget ROps m 0 0]] in
+  let svd := fun (_ : nat) (m : list (list R)) => (m, @nil R, m) in
+  exists s outs, ls_run ROps inv svd 0 true [OpSetDataSize 3] (ls_new1 ROps 1) = Some (s, outs) /\
+  exists t o, ls_run ROps inv svd 0 true (load_ops ROps 1 [[1]] [2] [1] ++ [OpSetPrecond [[1]] [0]]) s = Some (t, o) /\
+    inv_contract 1 (ls_JtJ ROps t) (inv 1%nat (ls_JtJ ROps t)) /\
+    inv_contract 1 (ls_JtJ ROps (ls_weight ROps t)) (inv 1%nat (ls_JtJ ROps (ls_weight ROps t))).
+Proof.
+  intros inv svd. eexists. eexists. split; [reflexivity|]. eexists. eexists. split; [reflexivity|].
+  split; intros i j Hi Hj; assert (i = 0%nat) by lia; assert (j = 0%nat) by lia; subst; cbn; unfold delta; cbn; field.
+Qed.
